@@ -1089,9 +1089,10 @@ func (c12) Classify(inAny any, obsAny any) []string {
 		}
 		return []string{"lifecycle.debug_dump_closes_response_body_twice"}
 	}
-	// F-C12-6 (open): an upload source that reports io.ErrUnexpectedEOF ONCE inside the sniffing window and io.EOF afterwards:
-	// io.ReadFull's own answer for a short file, so the part is sent truncated and the call succeeds. Only when that is the
-	// one reason for the verdict: the call succeeded, everything was released, and every failing source is of that kind.
+	// F-C12-6 (fixed): an upload source that reports io.ErrUnexpectedEOF ONCE inside the sniffing window and io.EOF afterwards was
+	// taken for a short file by the sniffing io.ReadFull: the part was sent truncated and the call succeeded. Since the repair
+	// (readHead: only io.EOF is the end of the source) the entry is closed, so the tag excuses nothing: a case that shows the
+	// pattern again is reported as a VIOLATION like any other; the tag only names the old defect in the report.
 	if in.Kind == "call" && obs.OK && !obs.Panicked && !in.ParamErr && obs.GoroutineGone && obs.RespCloses == obs.RespOpened && obs.InTime {
 		swallowed, other := false, false
 		for i, f := range in.Files {
